@@ -9,6 +9,7 @@ mod dp;
 mod srt;
 mod chn;
 mod lm;
+mod ft;
 
 pub use rng::Rng;
 
@@ -27,6 +28,7 @@ fn area(name: &str) -> Box<dyn Area> {
         "chn" => Box::new(chn::Chn),
         "lm" => Box::new(lm::Lm),
         "lw" => Box::new(dp::Lw),
+        "ft" => Box::new(ft::Ft),
         _ => {
             eprintln!("unknown area {}", name);
             std::process::exit(2)
